@@ -9,7 +9,7 @@
 (* regroup to exactly the table, and every line ending is ONE end-of-line  *)
 (* token spelled LF, CR, CRLF or LFCR.                                     *)
 (***************************************************************************)
-EXTENDS Csv, Json, TLC
+EXTENDS Csv, Json, TLC, Held
 VARIABLE l
 Trace == ndJsonDeserialize("trace.ndjson")
 F(ok, name) == IF ok THEN "" ELSE name \o "; "
@@ -30,7 +30,7 @@ Init == l = 1
 Next ==
   /\ l <= Len(Trace)
   /\ l' = l + 1
-  /\ LET f == Fails(Trace[l]) IN f = "" \/ PrintT("VERIF-FAIL " \o ToString(l) \o " " \o f)
+  /\ LET f == Fails(Trace[l]) IN Report(l, f, Trace[l])
 Spec == Init /\ [][Next]_l
 Accepted == TLCGet("stats").diameter - 1 = Len(Trace)
 =============================================================================
